@@ -143,7 +143,7 @@ def e2e_round(binp, d, how, hold_s):
         return until is None
     res = {"how": how, "hold_s": hold_s, "rc": None, "attached": False, "worked_at_end": False, "gone_early": False}
     try:
-        if not pump(rb"https://127\.0\.0\.1:(\d+)/c", 8):
+        if not pump(rb"https://127\.0\.0\.1:(\d+)/c", 25):
             res["error"] = "no listening address seen"; raise RuntimeError
         port = int(re.search(rb"https://127\.0\.0\.1:(\d+)/c", out).group(1))
         ctx = ssl.create_default_context(); ctx.check_hostname = False; ctx.verify_mode = ssl.CERT_NONE
@@ -152,14 +152,14 @@ def e2e_round(binp, d, how, hold_s):
         if how == "input-first":                       # two unidirectional streams; the input side will go first, the upload stays open
             cin = ctx.wrap_socket(socket.create_connection(("127.0.0.1", port), timeout=5))
             cin.sendall(b"GET /i/e2e HTTP/1.1\r\nHost: h\r\n\r\n")
-            pump(rb"Input connected", 3)
+            pump(rb"Input connected", 15)
             c.sendall(b"POST /o/e2e HTTP/1.1\r\nHost: h\r\nTransfer-Encoding: chunked\r\n\r\n")
         else:
             c.sendall(b"POST /io HTTP/1.1\r\nHost: h\r\nTransfer-Encoding: chunked\r\n\r\n")
-        res["attached"] = pump(rb"ready to go", 5)
+        res["attached"] = pump(rb"ready to go", 20)
         mark = len(out)
         if how == "muted":                             # the operator mutes the shell's output, and the shell prints something meanwhile
-            os.write(master, b"\x0f"); pump(rb"Muting until", 2)
+            os.write(master, b"\x0f"); pump(rb"Muting until", 10)
             c.sendall(b"12\r\nWHILE-MUTED-OUT!!\n\r\n"); pump(None, 0.2)
         t_end = time.time() + hold_s
         while time.time() < t_end:
@@ -170,7 +170,7 @@ def e2e_round(binp, d, how, hold_s):
                 res["worked_at_end"] = True
             else:
                 c.sendall(b"15\r\nSTILL-ALIVE-OUTPUT!!\n\r\n")
-                res["worked_at_end"] = pump(rb"STILL-ALIVE-OUTPUT!!", 3)
+                res["worked_at_end"] = pump(rb"STILL-ALIVE-OUTPUT!!", 15)
             if how == "quick-line":
                 c.sendall(b"0\r\n\r\n"); c.close()
             elif how == "input-first":
